@@ -84,7 +84,7 @@ class C09(Prop):
                    'scheduled harness actions run in a generate_events handler (priority 50) and are followed by '
                    'reduce_time_left(0) as the generate_events contract requires',
                    'datetime deadlines are compared with a 1e-6 s tolerance (float round trip through mktime), numeric intervals exactly')
-    budget = {'quick': (1200, 4), 'thorough': (8000, 16)}
+    budget = {'quick': (1200, 4), 'thorough': (40000, 16)}
     shrink_lists = {'timers': 1, 'events': 0, 'resets': 0}
 
     def setup(self):
